@@ -485,7 +485,15 @@ func C20(p *load.Prog, r *oblig.Run) {
 	// R20.c
 	o = r.Add("R20.c", "SetContext before collecting", p.Pos(dw.Pos()), "context of collected warnings")
 	okCtx := false
-	for _, fn := range append([]*ssa.Function{dw}, dw.AnonFuncs...) {
+	ctxScan := append([]*ssa.Function{dw}, dw.AnonFuncs...)
+	// the collecting loop may live in a helper Document.Warnings calls (appendNodeWarnings) or in its function literal
+	for _, c := range su.Calls(dw) {
+		if h := c.Common().StaticCallee(); h != nil && h != dw && pkgPathOf(h) == load.PkgRoot && len(h.Blocks) > 0 && h.Signature.Recv() == nil {
+			ctxScan = append(ctxScan, h)
+			ctxScan = append(ctxScan, h.AnonFuncs...)
+		}
+	}
+	for _, fn := range ctxScan {
 		var setCtx, app ssa.Instruction
 		for _, b := range fn.Blocks {
 			for _, ins := range b.Instrs {
